@@ -619,3 +619,11 @@ func (r *Run) PickInts(q, t []int) []int {
 	}
 	return t
 }
+
+// PickDur returns q in the quick tier and t in the thorough tier.
+func (r *Run) PickDur(q, t time.Duration) time.Duration {
+	if r.Quick() {
+		return q
+	}
+	return t
+}
